@@ -1,4 +1,5 @@
 import Guard
+import Guard.Judge.C02
 import Lean.Data.Json
 /-
   guard_model — line-protocol driver for the executable model.
@@ -252,6 +253,52 @@ partial def recJson : Rec → Json
 
 def siteName (s : PanicSite) : String := reprStr s
 
+def parseStatus (s : String) : Status :=
+  match s with | "PASS" => .pass | "FAIL" => .fail | _ => .skip
+
+/-- canonical tree (as produced by tools/vlib.py for either side) -> `Rec` -/
+partial def parseRec (j : Json) : Rec :=
+  let ch := (jarr (jfield j "c")).map parseRec
+  let s := parseStatus (jstr (jfield j "s"))
+  let n := jstrL (jfield j "n")
+  let dummy : QR := .resolved (.null Path.root)
+  let k : RecKind := match jstr (jfield j "k") with
+    | "FileCheck" => .fileCheck s
+    | "RuleCheck" => .ruleCheck n s none
+    | "RuleCondition" => .ruleCondition s
+    | "TypeCheck" => .typeCheck n s
+    | "TypeCondition" => .typeCondition s
+    | "TypeBlock" => .typeBlock s
+    | "Filter" => .filter s
+    | "WhenCheck" => .whenCheck s
+    | "WhenCondition" => .whenCondition s
+    | "Disjunction" => .disjunction s
+    | "BlockGuardCheck" => .blockGuardCheck s
+    | "GuardClauseBlockCheck" => .guardClauseBlockCheck s
+    | _ =>
+      .clauseValueCheck (match jstr (jfield j "v") with
+        | "Success" => .success
+        | "Comparison" => .comparison dummy none .eq false none
+        | "InComparison" => .inComparison dummy [] .in_ false none
+        | "Unary" => .unary dummy .exists_ false none
+        | "NoValueForEmptyCheck" => .noValueForEmptyCheck none
+        | "DependentRule" => .dependentRule [] none
+        | _ => .missingBlockValue dummy)
+  .node k ch
+
+/-- first inconsistent node (pre-order), as a path of child indices -/
+partial def firstBad (r : Rec) (path : List Nat) : Option (List Nat) :=
+  match r with
+  | .node k ch =>
+    if !nodeOk k ch then some path.reverse
+    else
+      let rec go (i : Nat) : List Rec → Option (List Nat)
+        | [] => none
+        | c :: cs => match firstBad c (i :: path) with
+          | some p => some p
+          | none => go (i + 1) cs
+      go 0 ch
+
 def handle (j : Json) : Json :=
   let id := jfield j "id"
   match jstr (jfield j "op") with
@@ -268,6 +315,13 @@ def handle (j : Json) : Json :=
     | .err e => Json.mkObj [("id", id), ("err", Json.str e.toStr)]
     | .panic s => Json.mkObj [("id", id), ("panic", Json.str (siteName s))]
     | .outOfFuel => Json.mkObj [("id", id), ("outOfFuel", true)]
+  | "consistent" =>
+    let t := parseRec (jfield j "tree")
+    let ok := Consistent t
+    Json.mkObj [("id", id), ("consistent", ok), ("size", t.size),
+      ("bad", match (if ok then none else firstBad t []) with
+        | some p => Json.arr (p.map fun (n : Nat) => toJson n).toArray
+        | none => Json.null)]
   | other => Json.mkObj [("id", id), ("bad_op", Json.str other)]
 
 partial def loop (h : IO.FS.Stream) (out : IO.FS.Stream) : IO Unit := do
